@@ -5,7 +5,7 @@
    tied to the code by the engine "share".  PARTIAL: the Go memory model, the standard library's
    internals and the runtime are outside the model (DESIGN 9).  Statements only. *)
 From QF Require Import Base.Prelude Model.Heap Model.HeapOps Model.Conc
-     Proofs.HeapProofs Proofs.HeapOpsProofs Proofs.ConcProofs.
+     Proofs.HeapProofs Proofs.HeapOpsProofs Proofs.ConcProofs Proofs.HeapAggregate Proofs.HeapRefine.
 
 (* Generic in the programs: if every thread is solo-safe from the common store then, under EVERY
    schedule (any interleaving of the action nodes, complete or not), each thread that has finished
@@ -43,6 +43,57 @@ Print Assumptions C11_operations.
 Theorem C11_ops_safe op : lop_proved op = true -> lop_safe op.
 Proof. exact (lop_proved_safe op). Qed.
 Print Assumptions C11_ops_safe.
+
+(* (wave 2) ... and for Aggregate too: every operation of the quantifier is safe, so that the theorem for
+   multisets of operations needs no per-operation premise any more: for every closed store, every
+   multiset of (operation, receiver, argument) over valid references, every schedule. *)
+Theorem C11_all_ops_safe op : lop_safe op.
+Proof. exact (lop_all_safe op). Qed.
+Print Assumptions C11_all_ops_safe.
+
+Definition C11_model_full_statement : Prop :=
+  forall env (s0 : store) (jobs : list job),
+  closed_store s0 ->
+  (forall t k, 1 <= t -> lookup s0 (t, k) = None) ->
+  Forall (job_ref_ok s0) jobs ->
+  forall sched : list nat,
+    let progs := map job_prog jobs in
+    let c := run_conc env progs sched s0 in
+    (forall i p th a, nth_error progs i = Some p -> nth_error (c_pool c) i = Some th ->
+                      ts_code th = Ret a -> a = solo_value env _ s0 i p) /\
+    no_race (c_trace c) /\
+    (forall l, in_dom s0 l = true -> lookup (c_store c) l = lookup s0 l) /\
+    (complete c = true -> results c = solo_results env progs s0).
+
+Theorem C11_operations_all : C11_model_full_statement.
+Proof. exact C11_ops_all. Qed.
+Print Assumptions C11_operations_all.
+
+(* ... and at L0: under every schedule of every multiset of operations every well-formed frame reference
+   of the initial store reads as the same L0 frame in the shared store at every moment of the run
+   (abs1 / ref_ok: Properties/C01.v, section 6). *)
+Theorem C11_abs1_stable env dec (s0 : store) (jobs : list job) :
+  closed_store s0 ->
+  (forall t k, 1 <= t -> lookup s0 (t, k) = None) ->
+  Forall (job_ref_ok s0) jobs ->
+  forall (sched : list nat) q,
+    ref_ok dec s0 q ->
+    let c := run_conc env (map job_prog jobs) sched s0 in
+    ref_ok dec (c_store c) q /\ abs1 dec (c_store c) q = abs1 dec s0 q.
+Proof. exact (conc_abs_stable env dec s0 jobs). Qed.
+Print Assumptions C11_abs1_stable.
+
+(* the premises hold for the example jobs (incl. an Aggregate on a grouper whose group shares the
+   frame's index) *)
+Example C11_all_premises_hold :
+  closed_store AggExamples.st_g0 /\
+  (forall t k, 1 <= t -> lookup AggExamples.st_g0 (t, k) = None) /\
+  Forall (job_ref_ok AggExamples.st_g0) AggExamples.jobs1.
+Proof. exact AggExamples.jobs1_premises. Qed.
+Example C11_aggregate_example :
+  complete AggExamples.conc1 = true /\ has_race (c_trace AggExamples.conc1) = false /\
+  results AggExamples.conc1 = solo_results HeapExamples.env0 (map job_prog AggExamples.jobs1) AggExamples.st_g0.
+Proof. exact AggExamples.conc1_example. Qed.
 
 (* Non-vacuity: Sort, Filter, Apply and Sort started at once on a frame and on its slice (which shares
    the index array with spare capacity): the round-robin schedule is complete, race free (the executable
